@@ -255,7 +255,7 @@ class Init3(Init):
         o, vec = ctx.data["self"], ctx.data["vec"]
         v = getattr(o, "v3view", None)
         if v is None:
-            ctx.fail("post:view", "constructor finished without parsing the vector")
+            ctx.fail("post:view", "constructor finished without parsing the vector", status="unknown")
             return
         ctx.prove("post:syn", f_syn["3"](vec.z), "a constructed object comes from a string in the grammar")
         ctx.prove("post:mandatory", G3.mand(v.o.dom), "every mandatory metric is present")
@@ -263,7 +263,7 @@ class Init3(Init):
         ctx.prove("post:minor", eq_z3(o.fields.get("minor_version"), v.minor), "minor_version as parsed")
         om, m = o.fields.get("original_metrics"), o.fields.get("metrics")
         if not (isinstance(om, SMap) and isinstance(m, SMap)):
-            ctx.fail("post:maps", "metrics / original_metrics are not metric maps")
+            ctx.fail("post:maps", "metrics / original_metrics are not metric maps", status="unknown")
             return
         ctx.prove("post:original==O", map_equal(om.dom, om.val, v.o.dom, v.o.val, S3.ORDER), "original_metrics == parsed map")
         fd_, fv_ = C3.fill_map(v.o)
@@ -302,14 +302,14 @@ class Init2(Init):
         o, vec = ctx.data["self"], ctx.data["vec"]
         v = getattr(o, "v2view", None)
         if v is None:
-            ctx.fail("post:view", "constructor finished without parsing the vector")
+            ctx.fail("post:view", "constructor finished without parsing the vector", status="unknown")
             return
         ctx.prove("post:syn", f_syn["2"](vec.z), "a constructed object comes from a string in the grammar")
         ctx.prove("post:mandatory", G2.mand(v.o.dom), "every mandatory metric is present")
         ctx.prove("post:vector", eq_z3(o.fields.get("vector"), vec), "self.vector is the supplied string")
         m = o.fields.get("metrics")
         if not isinstance(m, SMap):
-            ctx.fail("post:maps", "metrics is not a metric map")
+            ctx.fail("post:maps", "metrics is not a metric map", status="unknown")
             return
         ctx.prove("post:metrics==O", map_equal(m.dom, m.val, v.o.dom, v.o.val, S2.ORDER), "metrics == parsed map")
         for n, sname in (("base_score", "base"), ("temporal_score", "temporal"), ("environmental_score", "env")):
@@ -347,14 +347,14 @@ class Init4(Init):
         o, vec = ctx.data["self"], ctx.data["vec"]
         v = getattr(o, "v4view", None)
         if v is None:
-            ctx.fail("post:view", "constructor finished without parsing the vector")
+            ctx.fail("post:view", "constructor finished without parsing the vector", status="unknown")
             return
         ctx.prove("post:syn", f_syn["4"](vec.z), "a constructed object comes from a string in the grammar")
         ctx.prove("post:mandatory", G4.mand(v.o.dom), "every mandatory metric is present")
         ctx.prove("post:vector", eq_z3(o.fields.get("vector"), vec), "self.vector is the supplied string")
         om, m = o.fields.get("original_metrics"), o.fields.get("metrics")
         if not (isinstance(om, SMap) and isinstance(m, SMap)):
-            ctx.fail("post:maps", "metrics / original_metrics are not metric maps")
+            ctx.fail("post:maps", "metrics / original_metrics are not metric maps", status="unknown")
             return
         ctx.prove("post:original==O", map_equal(om.dom, om.val, v.o.dom, v.o.val, S4.ORDER), "original_metrics == parsed map")
         fd_, fv_ = C4.fill_map4(v.o)
@@ -446,7 +446,7 @@ class FromRh(Contract):
                   "accepted only if there is a '/' and the score part parses as a number")
         view = getattr(value, "v%sview" % v, None)
         if view is None:
-            ctx.fail("post:view", "object without a parsed view")
+            ctx.fail("post:view", "object without a parsed view", status="unknown")
             return
         from pyvc.models import float_real
 
